@@ -136,8 +136,6 @@ def eval_case(case):
     for h, p, f in net.gai_calls:
         if h not in hosts:
             sig = 'resolver-asked-for-other-name'
-            if case['where'] == 'cli' and case['p_opt'] is not None and targets[0]['spelling'] in ('host:port', '[host]:port', '[host]') and h == targets[0]['text']:
-                sig = 'port-option-with-host-port-spelling-treated-as-hostname'
             fails.append([sig, 'argv %r: getaddrinfo(%r)' % (argv, h)])
     # connection attempts: right address, family and port
     by_target = {}
